@@ -12,6 +12,8 @@ def put(path, txt):
     if os.path.exists(path) and open(path).read() == txt: return False
     open(path, "w").write(txt); return True
 
+SERVES = {}     # translator name -> tuple of property ids it serves (None: every property)
+
 def run_all(only=None):
     problems = []
     out = os.path.join(VERIF, "coq", "Gen")
@@ -26,6 +28,7 @@ def run_all(only=None):
             pr = mod.generate(ombuild.REPO, out) or []
         except Exception as e:
             pr = ["translator %s failed: %r" % (name, e)]
+        SERVES[name] = getattr(mod, "SERVES", None)
         problems += ["%s: %s" % (name, x) for x in pr]
     return problems
 
